@@ -116,7 +116,7 @@ pub fn draw_shape<R: RecUni>(rng: &mut Rng, tier: Tier, force_kind: Option<&str>
         fri.log_blowup = 2;
         fri.log_final_poly_len = 0;
     }
-    let kind = force_kind.map(|s| s.to_string()).unwrap_or_else(|| if rng.chance(1, 2) { "uni".into() } else { "batch".into() });
+    let kind = force_kind.map(|s| s.to_string()).unwrap_or_else(|| if rng.chance(1, 2) && R::HAS_UNI { "uni".into() } else { "batch".into() });
     let mut log_n = rng.range(0, tier.pick(5, 7));
     if log_n < fri.log_final_poly_len + 1 {
         // keep degenerate heights, but FRI needs log_height > log_final_poly_len for a useful proof
@@ -310,7 +310,7 @@ pub fn run_shape<R: RecUni>(
                 return;
             }
         };
-        let honest_native = R::batch_native(s, &proof);
+        let honest_native = R::batch_native(s, &proof, &common);
         let built = R::batch_build(s, &proof, &common);
         let honest_circuit = match &built {
             Ok(b) => R::batch_run(b, &proof, &common).0,
@@ -393,7 +393,7 @@ pub fn run_shape<R: RecUni>(
                     };
                     // both verifiers get the same (possibly faulted) common data
                     let common2 = R::common_for(&p2, &common);
-                    let n = R::batch_native(s, &p2);
+                    let n = R::batch_native(s, &p2, &common);
                     let c = if mode == "fixed" {
                         R::batch_run(&built, &p2, &common2).0
                     } else {
